@@ -1,7 +1,7 @@
 /-
   C19 — model of the counter scope machinery of html/boxes/build.go:
-    UpdateCounters (counter-reset, then counter-set, then counter-increment — in THAT order, as the
-    code does), the push/pop of `state.CounterScopes` in elementToBox, the `UpdateCounters` of
+    UpdateCounters (counter-reset, then counter-increment, then counter-set — the order of CSS Lists 3,
+    since the fix 8b9de81 of /repo; set came before increment until then), the push/pop of `state.CounterScopes` in elementToBox, the `UpdateCounters` of
     ::before / ::after in the scope of the element's children, and what `counter()` / `counters()`
     / the list marker read.
 
@@ -78,7 +78,7 @@ def updateCounters (st : State) (o : Ops) : Option State :=
     match resetAll o.reset st.values sib with
     | none => none
     | some (vals, sib) =>
-      let (vals, sib) := incrAll o.increments (setAll o.set (vals, sib))
+      let (vals, sib) := setAll o.set (incrAll o.increments (vals, sib))
       some { values := vals, scopes := sib :: up }
 
 inductive ObsKind where
